@@ -37,6 +37,7 @@ Step ==
                [] e.ev = "SysTeardown"      -> YTeardown(y)
                [] e.ev = "Panic"            -> YPanic(y)
                [] e.ev = "SysAdmitted"      -> YAdmitted(y, e.k)
+               [] e.ev = "SysWireClose"     -> IF e.side = "c" THEN YClientClose(y, e.k) ELSE y
                [] OTHER                     -> y
 
 TSpec == TInit /\ [][Step]_tvars
